@@ -1152,8 +1152,13 @@ static int _GD_Rename(DIRFILE *D, gd_entry_t *E, const char *new_name,
     memcpy(name, new_name, len + 1);
   }
 
-  /* Duplicate check */
-  Q = _GD_FindField(D, name, len, D->entry, D->n_entries, 1, NULL);
+  /* Duplicate check -- without de-aliasing: a dangling alias of this name is
+   * a duplicate, too */
+  Q = _GD_FindField(D, name, len, D->entry, D->n_entries, 0, NULL);
+
+  /* renaming a field to the name of one of its own aliases does nothing */
+  if (Q && Q->field_type == GD_ALIAS_ENTRY && Q->e->entry[0] == E)
+    Q = E;
 
   if (Q == E) {
     free(name);
